@@ -231,6 +231,10 @@ def list_lemmas(terms):
                     out.append(z3.Implies(e.arg(1) == length(l0.arg(0)), e == l0.arg(0)))
                     out.append(length(l0.arg(0)) >= 0)
                 out.append(z3.Implies(z3.And(e.arg(1) >= 0, e.arg(1) <= length(e.arg(0))), length(e) == e.arg(1)))
+                if depth < 1:
+                    # take(l, a) = take(l, a-1) ++ [l[a-1]]   (0 < a <= length l; induction on l)
+                    out.append(z3.Implies(z3.And(e.arg(1) > 0, e.arg(1) <= length(e.arg(0))),
+                                          e == app(take(e.arg(0), e.arg(1) - 1), VL.cons(nth(e.arg(0), e.arg(1) - 1), VL.nil))))
                 out.append(z3.Implies(e.arg(1) >= length(e.arg(0)), e == e.arg(0)))
                 out.append(length(e.arg(0)) >= 0)
             if n in UNFOLD and depth < 1:
